@@ -3,7 +3,7 @@ From Coq Require Import List Arith.
 Import ListNotations.
 From Exmex.Model Require Import Base EvalBinary Lexer Flat Deep Convert.
 From Exmex.Spec Require Import RefSem.
-From Exmex.Proofs Require Import DeepSem DeepSubs C11Main DeepParse C03Main Unparse UnparseParsed.
+From Exmex.Proofs Require Import DeepSem DeepSubs C11Main DeepParse C03Main DeepOps Unparse UnparseParsed UokOps.
 Open Scope nat_scope.
 
 (* `_partial`: a flat expression obtained by parsing prints exactly the text it was parsed from (for every text,
@@ -80,6 +80,19 @@ Theorem C12_parsed_expressions_record_unary_operators :
   dparse C tb fuel None ts (find_parsed_vars ts) [] [] [] = Ok (e, rest) -> uok tb e.
 Proof. intros D C tb ts e rest fuel H. exact (dparse_uok C tb fuel None ts _ [] [] [] e rest eq_refl (Forall_nil _) H). Qed.
 
+(* ... and it is kept by the operations that derive expressions, which also keep the structural well-formedness (C10, C11):
+   so what operator application and substitution return prints and parses back by 3 and 4.  (Derivatives: C05's
+   C05_differentiation_succeeds returns the same two facts for partial.) *)
+Theorem C12_derived_expressions_meet_the_premises :
+  forall (D : Type) (C : carrier D) (tb : optable),
+  (forall (a b r : deepex D) (name : str), uok tb a -> uok tb b -> operate_bin C tb a b name = Ok r -> uok tb r) /\
+  (forall (a r : deepex D) (name : str), uok tb a -> operate_unary C tb a name = Ok r -> uok tb r) /\
+  (forall (sub : str -> option (deepex D)), (forall x r, sub x = Some r -> uok tb r) ->
+     forall e e' : deepex D, uok tb e -> subs C sub e = Ok e' -> uok tb e').
+Proof.
+  intros D C tb. split; [exact (operate_bin_uok C tb)|]. split; [exact (operate_unary_uok C tb)|exact (subs_uok C tb)].
+Qed.
+
 (* 5. a flat expression made from a deep one prints what the deep one prints *)
 Theorem C12_flat_from_deep_prints_the_deep_text :
   forall (D : Type) (C : carrier D) (tb : optable) (fb : bool) (e : deepex D) (fx : flatex D),
@@ -96,3 +109,4 @@ Print Assumptions C12_printed_tokens_parse_back.
 Print Assumptions C12_printed_tokens_parse_back_to_the_same_expression.
 Print Assumptions C12_parsed_expressions_record_unary_operators.
 Print Assumptions C12_flat_from_deep_prints_the_deep_text.
+Print Assumptions C12_derived_expressions_meet_the_premises.
